@@ -477,7 +477,12 @@ def query_case(draw, cfg: Cfg):
         sel = [["var", v] for v in order]
         if cfg.value_terms_in_select and draw(st.booleans()):
             v = draw(st.sampled_from(list(order)))
-            sel.insert(draw(st.integers(0, len(sel))), int_term(draw, ctx, v))
+            if chance(draw, 1, 4):
+                # a value expression is ALL that is selected: entity(x.o), set_of([x.a])
+                sel = [draw(st.sampled_from([int_term(draw, ctx, v), ["attr", ent_term(draw, ctx, v), "s"]]
+                                            + ([["attr", ent_term(draw, ctx, v), "o"]] * 2 if cfg.allow_any else [])))]
+            else:
+                sel.insert(draw(st.integers(0, len(sel))), int_term(draw, ctx, v))
         case["sel"] = sel
         case["desc"] = "entity" if (len(sel) == 1 and "entity" in cfg.desc and draw(st.booleans())) else "set_of"
     return case
